@@ -350,7 +350,7 @@ impl<'a> GeneratorState<'a> {
                         let fits = |v: Option<i32>| v.map(ExprType::Immediate).ok_or_else(|| self.compiler_state.syntax_error("Overflow in constant expression", pos));
                         match op {
                             Operation::Brs(_) => return fits(u32::try_from(*r).ok().and_then(|s| l.checked_shr(s))),
-                            Operation::Bls(_) => return fits(u32::try_from(*r).ok().and_then(|s| l.checked_shl(s))),
+                            Operation::Bls(_) => return fits(crate::compile::shift_left(*l, *r)),
                             _ => unreachable!(),
                         } 
                     },
